@@ -346,6 +346,13 @@ def check_branches(trie, db, st, ctx, out):
             fail("check_if_branch_exist-wrong", {"prefix": p, "got": got, "want": e["e"]})
     count("get_trie_nodes")
     try:
+        # against a database that holds nothing the answer is empty; it must not colour the next answer
+        if br.get_trie_nodes({}, rh) != ():
+            fail("get_trie_nodes-invents-nodes-for-an-empty-database", {})
+        if st["root"]:
+            part = {rh: db[rh]}
+            if set(br.get_trie_nodes(part, rh)) != {db[rh]}:
+                fail("get_trie_nodes-wrong-on-a-database-holding-only-the-root", {})
         tn = br.get_trie_nodes(db, rh)
         if set(tn) != nodes:
             fail("get_trie_nodes-not-exactly-the-reachable-nodes", {"got": len(set(tn)), "want": len(nodes)})
